@@ -430,8 +430,21 @@ class Engine:
         work = [0]
         outs = []
         backedge_targets = {b for a in fn.reach for b in fn.succ[a] if fn.dominates(b, a)}
+        rpo = getattr(fn, "_rpo", None)
+        if rpo is None:
+            # reverse postorder of the CFG: a block is scheduled after its forward predecessors whatever its index is (blocks added by the
+            # CFG normalisations - inlined helpers, threaded chains, duplicated tails - sit at the end of the block list)
+            order, seen, stack = [], set(), [(0, iter(fn.succ[0]))]
+            seen.add(0)
+            while stack:
+                b_, it = stack[-1]
+                nxt = next((x for x in it if x not in seen), None)
+                if nxt is None: order.append(b_); stack.pop()
+                else: seen.add(nxt); stack.append((nxt, iter(fn.succ[nxt])))
+            rpo = {b_: i_ for i_, b_ in enumerate(reversed(order))}
+            fn._rpo = rpo
         while work:
-            work.sort()
+            work.sort(key=lambda b_: rpo.get(b_, 10 ** 9))
             bb = work.pop(0)
             cur = states.pop(bb, [])
             if not cur: continue
